@@ -26,6 +26,8 @@ def body(l, r, shape):
         s += "K=%d%d\nU%d%d=1\n" % (l, r, l, r)
     if shape == "h":
         s += "[S]\n"                     # header-only section
+    if shape == "c":
+        s += "# nothing is set here\n  # really nothing\n"
     if shape in ("b", "s"):
         s += "[S]\nK=%d%d\nU%d%d=1\n" % (l, r, l, r)
     return s
@@ -909,6 +911,43 @@ def check_nosuffix_fold(exe, recs, verdict):
                           "suffix %s on %s: history (%d members, both variants equal: %s) folded with masking gives %s\nmerged results: %s" % (
                               "NULL" if i % 2 else "empty", tree_text(t), len(e["hist"]), e["hist2_same"], show_ents(m["spec"]["folded"]), [show_ents(r) for r in e["results"]][:2]))
     return len(events) - len(mism)
+
+
+def check_merged_paths(exe, tier, seed, verdict):
+    """C17: econf_getPath of a layered read's result is "" as soon as two or more files were consulted - also when the
+    later files set nothing (drop-ins holding only comments)."""
+    rnd = random.Random(seed)
+    r, recs, total = tree_export(3, [3, 6], 12, ["bb", "bc", "nc", "sc"])
+    r2, recs2, _ = tree_export(2, [3, 6], 12, ["bb", "bc", "hc"])
+    pool = [(x, "std") for x in recs if x["rc"] == "ECONF_SUCCESS"] + [(x, e) for x in recs2 if x["rc"] == "ECONF_SUCCESS" for e in ("readdirs", "rc2")]
+    rnd.shuffle(pool)
+    pool = pool[:1200 if tier == "quick" else 20000]
+    cases = []
+    for i, (x, ent) in enumerate(pool):
+        R = ROOT + "/mp%d" % (i % 16)
+        t = {"main": x["main"], "drop": x["drop"], "shp": x["shp"]}
+        shape = Shape(ent, len(x["main"]))
+        s, paths = materialise(t, shape, R)
+        cases.append((i, s + shape.call(1, R, cb=False) + ["path 1", "free 1"]))
+    res = core.run_cases(exe, cases)
+    ok = 0
+    for i, (x, ent) in enumerate(pool):
+        out = res.get(i)
+        t = {"main": x["main"], "drop": x["drop"], "shp": x["shp"]}
+        if out is None or out["crash"]:
+            verdict.violation("C17:mergedpath:crash", {"kind": "tree", "tree": t, "crash": (out or {}).get("crash")}, "layered read + econf_getPath crashed on %s" % tree_text(t))
+            continue
+        rd = next(e for e in out["ev"] if e["op"].startswith("read"))
+        pe = next(e for e in out["ev"] if e["op"] == "path")
+        if rd["rc"] != "ECONF_SUCCESS":
+            continue        # C01's business
+        if x["merged"] and pe["out"] != "":
+            verdict.violation("C17:mergedpath:%s" % ("dropins-set-nothing" if x["shp"][1] == "c" else "content"),
+                              {"kind": "tree", "entry": ent, "tree": t, "got": pe["out"], "consulted": x["log"]},
+                              "%s on %s: %d files consulted and merged, econf_getPath returns %r instead of the empty string" % (ent, tree_text(t), len(x["hist"]), pe["out"]))
+            continue
+        ok += 1
+    return ok, sum(1 for x, _ in pool if x["merged"] and x["shp"][1] == "c")
 
 
 def check_null_dirs(exe, verdict):
